@@ -52,12 +52,29 @@ def seq_unique(t, rid):
         bumps = [s for s in allst if re.search(r"packet_sequence\)? AddWithOverflow 1\)\.0$", fmt(t.stored(s)))]
         other = [s for s in allst if s not in bumps]
         for s in other: r.bad(f"{name}|other-store", s, f"packet sequence counter assigned {fmt(t.stored(s))[-50:]} (only +1 is allowed)")
+        def read_pos(a):
+            """where the sequence value of packet aggregate `a` is read from the counter: the aggregate itself, or the statement that copied the
+            counter into a temporary first (`let sequence = *packet_sequence; *packet_sequence += 1; packets.push(Packet { sequence, .. })`)"""
+            rv = a.node["rv"]; names = rv.get("fnames") or []
+            if "sequence" not in names: return pos(a)
+            op = rv["fields"][names.index("sequence")]
+            for _ in range(6):
+                if op["k"] not in ("copy", "move") or op["place"]["proj"]: break
+                ds = f.defs().get(op["place"]["local"], [])
+                if len(ds) != 1 or ds[0][2]["k"] != "assign": break
+                bb_, k_, st_ = ds[0]
+                if st_["rv"]["k"] == "use" and st_["rv"]["op"]["k"] in ("copy", "move"):
+                    if st_["rv"]["op"]["place"]["proj"]: return (bb_, k_)         # the load `tmp = *packet_sequence`
+                    op = st_["rv"]["op"]; continue
+                break
+            return pos(a)
+        reads = {id(a): read_pos(a) for a in aggr}
         for a in aggr:
             r.site(a, a.node["rv"]["vname"])
             seq = fmt(t.field_of_aggr(a, "sequence"))
             if not re.search(r"packet_sequence\)?$", seq): r.bad(f"{name}|seq-src|{a.node['rv']['vname']}", a, f"packet sequence is {seq[-50:]}, not the sequence counter"); continue
-            ok, w = must_pass(f, pos(a), {pos(b) for b in bumps}, stops={pos(x) for x in aggr if x is not a})
-            if not ok: r.bad(f"{name}|no-bump|{a.node['rv']['vname']}", a, f"after building this {a.node['rv']['vname']} packet the sequence counter is not advanced on every path before the next packet / return (two packets can share a sequence)")
+            ok, w = must_pass(f, reads[id(a)], {pos(b) for b in bumps}, stops={reads[id(x)] for x in aggr if x is not a})
+            if not ok: r.bad(f"{name}|no-bump|{a.node['rv']['vname']}", a, f"after the sequence of this {a.node['rv']['vname']} packet is read, the counter is not advanced on every path before the next packet reads it / the function returns (two packets can share a sequence)")
     return r
 
 
